@@ -416,3 +416,34 @@ Section Step.
     destruct (centroid_orbit_grid D b k Hb) as [I0 _]; [intros j Hj; apply Hok; lia|]. rewrite I0. exact Hq.
   Qed.
 End Step.
+
+(** ** C08, RF/drift part on the grid: slice b of the multi-bunch RF kick (offset vector built
+    by the model of RFKickMap::_calcKick: the field in every bunch's block) is the single-bunch
+    RF kick of that slice with the same field; likewise for the drift *)
+Lemma row_out_ext n it E r r' y :
+  0 < n -> (forall i, 0 <= i < n -> r i = r' i) -> row_out n it E r y = row_out n it E r' y.
+Proof.
+  intros Hn Hr. rewrite <- (row_out_clip n it E r), <- (row_out_clip n it E r') by exact Hn.
+  unfold row_out. f_equal. apply map_ext. intros j. cbv zeta.
+  set (ys := wrap32 _). destruct (Z.ltb_spec ys n) as [L|G]; [|reflexivity].
+  assert (0 <= ys) by (unfold ys, wrap32; apply Z.mod_pos_bound; reflexivity).
+  rewrite !clip_in by lia. rewrite Hr by lia. reflexivity.
+Qed.
+
+Theorem rf_kick_slice n nb it (f : Z -> Qc) (D : Z -> Qc) b x y :
+  valid_it it -> 0 < n -> 0 < nb -> 0 <= b < nb -> 0 <= x < n -> 0 <= y < n ->
+  apply_y n nb it (updateSM n it (rf_offsets (K:=QcF) n f)) D (didx n b x y) =
+  apply_y n 1 it (updateSM n it (rf_offsets (K:=QcF) n f)) (fun i => D (b * n * n + i)) (didx n 0 x y).
+Proof.
+  intros Hv Hn Hnb Hb Hx Hy.
+  rewrite !apply_y_row by (assumption || lia).
+  destruct (C08_rf_offsets_all_bunches QcF n nb f b x Hb Hx) as [_ E]. rewrite E.
+  apply row_out_ext; [exact Hn|]. intros i Hi. unfold rowY. rewrite !clip_in by lia.
+  f_equal. unfold didx. ring.
+Qed.
+
+Theorem drift_kick_slice n nb it (f : Z -> Qc) (D : Z -> Qc) b x y :
+  valid_it it -> 0 < n -> 0 < nb -> 0 <= b < nb -> 0 <= x < n -> 0 <= y < n ->
+  apply_x n nb it (updateSM n it (drift_offsets (K:=QcF) n f)) D (didx n b x y) =
+  apply_x n 1 it (updateSM n it (drift_offsets (K:=QcF) n f)) (fun i => D (b * n * n + i)) (didx n 0 x y).
+Proof. intros. apply apply_x_slice; assumption. Qed.
